@@ -23,11 +23,15 @@ def build_loc_forest(version):
     kids, tests = [], []
     form = "DW_FORM_exprloc" if version >= 4 else "DW_FORM_block1"
     # one variable per small group of operations (block1 holds at most 255 bytes)
+    # ... under each of the attributes that hold location descriptions, in turn
+    LOCATS = ["DW_AT_location", "DW_AT_data_member_location", "DW_AT_vtable_elem_location", "DW_AT_frame_base", "DW_AT_return_addr", "DW_AT_static_link",
+              "DW_AT_use_location", "DW_AT_segment", "DW_AT_data_location"]
     for i in range(0, len(ops), 6):
         grp = ops[i:i + 6]
-        d = Die("DW_TAG_variable", [Attr("DW_AT_name", "DW_FORM_string", b"v%d" % i), Attr("DW_AT_location", form, grp)])
+        at = LOCATS[(i // 6) % len(LOCATS)]
+        d = Die("DW_TAG_variable", [Attr("DW_AT_name", "DW_FORM_string", b"v%d" % i), Attr(at, form, grp)])
         kids.append(d)
-        tests.append((d, "DW_AT_location", [(0, (1 << 64) - 1, grp)]))
+        tests.append((d, at, [(0, (1 << 64) - 1, grp)]))
     # an expression without any operation (a variable optimised away): one element of length 0
     d = Die("DW_TAG_variable", [Attr("DW_AT_name", "DW_FORM_string", b"gone"), Attr("DW_AT_location", form, [])])
     kids.append(d)
@@ -112,7 +116,7 @@ def run(ctx):
         voc = set(zw.run_cases(["@m=voc"])[0].d["words"])
         names = sorted({op[0][len("DW_OP_"):] for _, _, els in tests for _, _, ops in els for op in ops})
         qs = [n for n in names if "?OP_" + n in voc]
-        rs = zw.run_cases([zw.enc("[entry attribute ?(form != DW_FORM_data1) ?(label == DW_AT_location || label == DW_AT_frame_base) value ?OP_%s (|E| E address low value)]" % n, dw=path) for n in qs])
+        rs = zw.run_cases([zw.enc("[entry attribute ?(form != DW_FORM_data1) value ?(type == T_LOCLIST_ELEM) ?OP_%s (|E| E address low value)]" % n, dw=path) for n in qs])
         for n, r in zip(qs, rs):
             evaluations += 1
             want = sum(1 for _, _, els in tests for _, _, ops in els if any(op[0] == "DW_OP_" + n for op in ops))
@@ -161,6 +165,24 @@ def run(ctx):
         if got != want:
             bad("`abbrev` lists the tables %s; the file holds %s" % (str(got)[:300], str(want)[:300]), case)
 
+    # what is known about one file's abbreviations says nothing about another's: the generated inputs (tables at
+    # the same offsets, other attribute lists) and two sample files asked in turn by one process must answer as
+    # each does on its own
+    turn_files = [os.path.join(d, "abbrev%d.o" % k) for k in range(3 if quick else 25)] + [os.path.join(common.REPO, "tests", n) for n in ("a1.out", "twocus", "nullptr.o")]
+    turn_files = [p_ for p_ in turn_files if os.path.exists(p_)]
+    TQ = ["[unit root abbrev [attribute [label, form]]]", "[abbrev entry (pos == 0) [attribute label]]", "[raw entry abbrev attribute label] length", "[entry (pos == 1) abbrev attribute form]"]
+    alone = {}
+    for p_ in turn_files:
+        for q_, r_ in zip(TQ, zw.run_cases([zw.enc(q_, dw=p_, t=60) for q_ in TQ], chunk=1)):
+            alone[(p_, q_)] = ([zw.canon_stack(x, False)[0] for x in r_.results], bool(r_.hard), r_.crash)
+    order = [(p_, q_) for q_ in TQ for p_ in turn_files] + [(p_, q_) for p_ in reversed(turn_files) for q_ in TQ[:2]]
+    turn = zw.run_cases([zw.enc(q_, dw=p_, t=60) for p_, q_ in order], chunk=len(order))
+    for (p_, q_), r_ in zip(order, turn):
+        evaluations += 1
+        got = ([zw.canon_stack(x, False)[0] for x in r_.results], bool(r_.hard), r_.crash)
+        if got != alone[(p_, q_)]:
+            bad("`%s` on %s, asked after the same of other files in one process, gives %s; on its own %s" % (q_, os.path.basename(p_), str(got)[:200], str(alone[(p_, q_)])[:200]),
+                {"file": p_, "query": q_, "after": [os.path.basename(x) for x in turn_files], "kind": "abbrev-across-files"})
     # laws on the sample binaries
     LAWS = [("abbrev-label", "raw entry (|D| ?((D abbrev label) != (D label)))"),
             ("abbrev-haschildren", "raw entry (|D| (?(D ?haschildren) !(D abbrev ?haschildren), !(D ?haschildren) ?(D abbrev ?haschildren)))"),
